@@ -122,6 +122,10 @@ class FaultSession:
                     mgr.remove_descriptor(self.conc(rec['h']))
             elif act == 'CommitCreate':
                 with self.mdib.descriptor_transaction() as mgr:
+                    if rec.get('w'):
+                        # an alert condition descriptor is updated in the same transaction: its Source list (an indexed
+                        # attribute) changes, the report gets an Upt part in front of the Crt part
+                        apply_tok(mgr.get_descriptor('ac0.vmd0.mds0'), t)
                     d = make_descriptor(self.mdib, ABS[rec['h']], self.proj.map_d['ch'])
                     mgr.add_descriptor(d, state_container=self.mdib.data_model.mk_state_container(d))
             elif act == 'Restart':
@@ -337,16 +341,38 @@ def strip(trace):
 
 
 def check(run, replay_path=None):
-    res = run_tlc('MirrorMC', 'Mirror_mc.cfg', coverage=True, timeout=3000)
-    run.add_tlc(res, MC_ACTIONS)
-    if not run.quick:
-        run.add_tlc(run_tlc('MirrorMC', 'Mirror_mc_thorough.cfg', timeout=7200))
-    num = run.pick(120, 4000)
-    res = run_tlc('MirrorMC', 'Mirror_sim.cfg', workers=1, simulate=f'num={num}', depth=23, seed=run.seed)
+    fault_family(run)
+
+
+def fault_family(run, family=None, num=None, prefixes=('R:',), with_model=True, seed_offset=0):
+    """The fault-delivery sessions; `family`: only these clauses are reported (C11 reuses the sessions for lookups_agree
+    with a cover of the deliveries whose description report has a part that is rejected after another was applied)."""
+    if with_model:
+        res = run_tlc('MirrorMC', 'Mirror_mc.cfg', coverage=True, timeout=3000)
+        run.add_tlc(res, MC_ACTIONS)
+        if not run.quick:
+            run.add_tlc(run_tlc('MirrorMC', 'Mirror_mc_thorough.cfg', timeout=7200))
+    num = num or run.pick(120, 4000)
+    pool = run.pick(3000, 12000)
+    res = run_tlc('MirrorMC', 'Mirror_sim.cfg', workers=1, simulate=f'num={pool}', depth=23, seed=run.seed + seed_offset)
     run.add_tlc(res)
     behs = json_lines(res.stdout, 'BEH')
-    if len(behs) < num // 2:
-        raise MachineryError(f'expected about {num} behaviours, got {len(behs)}')
+    if len(behs) < pool // 2:
+        raise MachineryError(f'expected about {pool} behaviours, got {len(behs)}')
+    # replayed: a cover of the delivery situations TLC attached to every Deliver (duplicate / stale / gap / other
+    # epoch x kind of report x create of an existing handle ...) plus a random fill
+    from verif.checks.mdibcommon import select_covering
+    behs, stats = select_covering(behs, num, run.seed, k=run.pick(1, 2), prefixes=prefixes)
+    run.note('situation_coverage', stats)
+    # test purpose (breadth-first TLC run over tiny bounds): the shortest histories in which the consumer rejects a
+    # later part of a description report after an earlier part was applied
+    res = run_tlc('MirrorMC', 'Mirror_purpose.cfg', workers=1, timeout=1800)
+    run.add_tlc(res)
+    purpose = json_lines(res.stdout, 'BEH')
+    if not purpose:
+        raise MachineryError('test purpose part-rejected-after-update-part is not reachable in Mirror.tla')
+    purpose.sort(key=lambda b: (len(b), str(b)))
+    behs = purpose[:run.pick(6, 60)] + behs
     variants = [dict(), dict(async_mgr=True)]
     traces = []
     for i, beh in enumerate(behs):
@@ -378,6 +404,8 @@ def check(run, replay_path=None):
         for (_, li, clause) in rs:
             rec = traces[ti][li]
             descr = {'check': 'faults', 'clause': clause, 'act': rec['act']}
+            if family is not None and clause not in family:
+                continue
             if run.is_known(descr):
                 continue
             run.violation(descr, f'{clause} fails at {rec["act"]} (record {li})',
